@@ -239,6 +239,18 @@ def cases(tier):
     for depth in (3, 4) if tier == "quick" else (3, 4, 5):
         for order in itertools.permutations(range(depth)):
             out.append(("chain", list(order), "asc"))
+    # a chain twelve modules deep (all 12! orders are out of reach): bottom-up and top-down, every rotation of both,
+    # and the lowest module first followed by the rest top-down / bottom-up
+    deep = 12
+    up = list(range(deep))
+    orders = []
+    for k in range(deep):
+        orders.append(up[k:] + up[:k])
+        orders.append(up[::-1][k:] + up[::-1][:k])
+    orders += [[0] + up[:0:-1], [0, deep - 1] + up[1:deep - 1], [deep - 1] + up[:deep - 1], up[1:] + [0]]
+    for order in orders:
+        if ("chain", order, "asc") not in out:
+            out.append(("chain", order, "asc"))
     # with a device library: every subset of the library's modules, in every order, both port styles
     names = list(ARCH_LIB)
     for r in range(len(names) + 1):
